@@ -59,7 +59,8 @@ RULE = ("The canonical case list of a tier is: for every corpus frame (a "
         "illegal lengths, counts and pointers).  Oracle per case: PacketIn(...).parsed returns; "
         "the layer chain is finite, made of packet_base objects ending in "
         "bytes/None, and an unparsed layer still holds its bytes; str() of "
-        "every layer, dump() and pack() return (pack returns bytes).  Every "
+        "every layer, dump() and pack() return (pack returns bytes), and so do "
+        "effective_ethertype and find() (what pox's own handlers read).  Every "
         "raise is one finding identified by (operation, exception type, "
         "innermost pox/lib/packet file and function).  A run is non-trivial "
         "when at least one case stopped parsing early or took another parser "
@@ -919,6 +920,17 @@ def run_case(b, state=None, direct=False):
     x = nxt
   chain = "/".join(names)
 
+  # -- the accessors pox's own handlers use on a parse result --------------
+  state["op"] = "access"
+  for what, fn in (("effective_ethertype", lambda: p.effective_ethertype),
+                   ("find", lambda: (p.find("ipv4"), p.find("lldp"),
+                                     p.find("arp"), p.find("tcp")))):
+    try:
+      fn()
+    except Exception as e:
+      f = _finding("access", e)
+      if not any(y["id"] == f["id"] for y in out):
+        out.append(f)
   # -- print ---------------------------------------------------------------
   state["op"] = "str"
   for L in layers:
